@@ -2214,6 +2214,11 @@ impl SubRule {
             let mut m = true;
             while *state_index < states.len() {
                 #[cfg(feature = "verif")] crate::verif::tick(132);
+                // past the end of the word only a boundary can match
+                if !word.in_bounds(*pos) && states[*state_index].kind != ParseElement::SyllBound {
+                    m = false;
+                    break;
+                }
                 if !self.input_match_item(captures, pos, state_index, word, states)? {
                     m = false;
                     break;
